@@ -17,7 +17,8 @@
 (*   kind "ok"     the token is viable here (in the language);                                         *)
 (*   kind "soft"   NOT in the language, but a parser that does not look closely could continue in      *)
 (*                 `to` (tag above 255, fixed array of bytes, literal of the wrong class, container    *)
-(*                 as map key ...); `why` names the class (it becomes the signature);                  *)
+(*                 as map key ...); `why` names the class (it becomes the signature; every literal    *)
+(*                 that is not a value of the declared type is one class, literal-type-mismatch);      *)
 (*   kind "beyond" viable in the language but beyond the stack bound of this model (never judged).     *)
 (* Every other token is not viable in c ("hard").                                                      *)
 EXTENDS Integers, Sequences, FiniteSets, TLC
@@ -105,7 +106,7 @@ Trans(c) ==
     [] ctl = "C_TYPE" -> TypeStart(c, "C")
     [] ctl = "C_NAME" -> {Ok("name", [c EXCEPT !.ctl = "C_EQ"])}
     [] ctl = "C_EQ"   -> {Ok("=", [c EXCEPT !.ctl = "C_VAL"])}
-    [] ctl = "C_VAL"  -> {IF l \in Lits(c.tc) THEN Ok(l, At("C_SEMI")) ELSE Soft(l, At("C_SEMI"), "literal-mismatch:" \o c.tc \o ":" \o l)
+    [] ctl = "C_VAL"  -> {IF l \in Lits(c.tc) THEN Ok(l, At("C_SEMI")) ELSE Soft(l, At("C_SEMI"), "literal-type-mismatch")
                           : l \in Literal \ {"emem"}}
     [] ctl = "C_SEMI" -> {Ok(";", At("M_BODY"))}
     \* ---- struct S { tag require|optional type name [ [n] | = literal ] ; ... };
@@ -124,7 +125,7 @@ Trans(c) ==
     [] ctl = "SM_ARRLEN"   -> {Ok("num", At("SM_ARRCLOSE")), Ok("big", At("SM_ARRCLOSE")), Soft("neg", At("SM_ARRCLOSE"), "array-length-negative")}
     [] ctl = "SM_ARRCLOSE" -> {Ok("]", At("SM_SEMI"))}
     [] ctl = "SM_DEF" -> {IF l \in Lits(c.tc) \/ c.tc \notin ScalarClass \cup {"enum"} THEN Ok(l, At("SM_SEMI"))
-                          ELSE Soft(l, At("SM_SEMI"), "literal-mismatch:" \o c.tc \o ":" \o l) : l \in Literal}
+                          ELSE Soft(l, At("SM_SEMI"), "literal-type-mismatch") : l \in Literal}
     [] ctl = "SM_SEMI" -> {Ok(";", At("S_BODY"))}
     [] ctl = "S_END"   -> {Ok(";", At("M_BODY"))}
     \* ---- types
@@ -139,8 +140,10 @@ Trans(c) ==
             [] OTHER -> {})
     \* ---- interface I { ret f(in, out ...); };
     [] ctl = "I_NAME" -> {Ok("name", At("I_OPEN"))}
-    [] ctl = "I_OPEN" -> {Ok("{", At("I_BODY"))}
-    [] ctl = "I_BODY" -> {Ok("void", At("IF_NAME")), Ok("}", At("I_END"))} \cup TypeStart(c, "FR")
+    [] ctl = "I_OPEN"  -> {Ok("{", At("I_FIRST"))}
+    \* an interface declares at least one function (the language speaks of "interfaces with parameters and return values")
+    [] ctl = "I_FIRST" -> {Ok("void", At("IF_NAME")), Soft("}", At("I_END"), "empty-interface")} \cup TypeStart(c, "FR")
+    [] ctl = "I_BODY"  -> {Ok("void", At("IF_NAME")), Ok("}", At("I_END"))} \cup TypeStart(c, "FR")
     [] ctl = "IF_NAME" -> {Ok("name", At("IF_LP"))}
     [] ctl = "IF_LP"   -> {Ok("(", At("IP_FIRST"))}
     [] ctl = "IP_FIRST" -> {Ok(")", At("IF_SEMI")), Ok("out", At("IP_TYPE"))} \cup TypeStart(c, "FP")
@@ -172,7 +175,7 @@ Region(c) ==
     [] ctl \in {"S_NAME", "S_OPEN"} -> "struct-head"
     [] ctl \in {"S_BODY", "SM_REQ", "SM_TYPE", "SM_NAME", "SM_AFTER", "SM_ARRLEN", "SM_ARRCLOSE", "SM_DEF", "SM_SEMI"} -> "struct-body"
     [] ctl \in {"I_NAME", "I_OPEN"} -> "interface-head"
-    [] ctl \in {"I_BODY", "IF_NAME", "IF_LP", "IP_FIRST", "IP_TYPE", "IP_NAME", "IP_AFTER", "IP_NEXT", "IF_SEMI"} -> "interface-body"
+    [] ctl \in {"I_FIRST", "I_BODY", "IF_NAME", "IF_LP", "IP_FIRST", "IP_TYPE", "IP_NAME", "IP_AFTER", "IP_NEXT", "IF_SEMI"} -> "interface-body"
     [] ctl \in {"K_OPEN", "K_S", "K_C", "K_M", "K_AFTER", "K_SEMI"} -> "key"
     [] ctl \in {"T", "T_UNS", "TV_LT", "TM_LT", "T_CLOSE"} ->
          (CASE c.ctx = "SM" -> "struct-body" [] c.ctx = "C" -> "const" [] OTHER -> "interface-body")
